@@ -310,7 +310,7 @@ CMD_LETTERS = "VLIZSOYRNP"
 
 OUT_UIDS = {"V": [-1], "L": [2, -1, 127, -128, 16], "N": [2, -1, 127, -128, 16], "P": [2, -1, 127, -128, 16],
             "I": [2, 31, 15, 16], "S": [2, 31, 15, 16], "O": [2, 31, 15, 16], "R": [2, 15, 8]}
-OTHER_QUICK = [0x01, 0x47, 0x67, 0xff]   # neighbours of the letter/digit ranges + extremes
+OTHER_QUICK = [0x01, 0xff]   # neighbours of the letter/digit ranges + extremes
 
 
 def cq(c):
@@ -331,12 +331,15 @@ def step_cells(tier, lower=None, fwd_quick=False):
             continue
         outs = OUT_UIDS[c.upper()]
         outs = outs[:1] if q else outs
-        for uid in [0, 1] + outs:
+        # quick: the second slot (index 1: the first-slot shortcut paths cannot hide a bug there) + one out-of-range
+        # representative; the version cell keeps all three (slot allocation order). thorough: both slots, all representatives
+        ins = [0, 1] if (not q or c.upper() == "V") else [1]
+        for uid in ins + outs:
             if c.islower() and q and uid != 1:
                 continue
             cells.append(("%s-u%d" % (c, uid), {"CMDCH": cq(c), "UIDCELL": "(%d)" % uid}))
     hexes = "0123456789abcdefABCDEF"
-    for c in (hexes if not q else "012F"):
+    for c in (hexes if not q else "12"):
         uid = int(c, 16)
         if uid < 2:
             # acting data cells: destination slot of a completed packet x upstream codec are cell parameters too
@@ -393,7 +396,7 @@ def raw_jobs(tier, groups, prefix, checks=False, harness="S_step.c"):
     G = {"G_" + g: None for g in groups}
     cells = []
     for cmd, cn in ((0x10, "login"), (0x20, "data"), (0x30, "ping"), (0x40, "unknown")):
-        for uid in ([0, 1, 2] if tier == "quick" else [0, 1, 2, 15]):
+        for uid in ([1, 2] if tier == "quick" else [0, 1, 2, 15]):
             if cn == "unknown" and uid != 1:
                 continue
             if cn == "data" and uid < 2:
@@ -422,7 +425,7 @@ def tun_jobs(tier, groups, prefix, checks=False, harness="S_step.c"):
     """MODE 3: tunnel_tun() with an arbitrary packet; cell = destination slot found for its address."""
     jobs = []
     G = {"G_" + g: None for g in groups}
-    for to in (-1, 0, 1):
+    for to in ((-1, 1) if tier == "quick" else (-1, 0, 1)):
         defs = {"MODE": 3, "NL": 20, "NU": 2, "CMDCH": "(0)", "STUB_SC": None, "TOCELL": "(%d)" % to, "UIDCELL": "(%d)" % max(to, 0)}
         defs.update(G)
         jobs.append(Job("%s-tun-to%d" % (prefix, to), harness, defs=defs, units=STEP_UNITS, hunits=SERVER_HUNITS, scale=STEP_B,
@@ -461,7 +464,7 @@ def dup_jobs(tier, prefix, harness="S_step.c"):
                                "the real save_to_qmem_pingordata()/save_to_dnscache()",
                         functions=["handle_null_request", "answer_from_dnscache", "answer_from_qmem", "answer_from_qmem_data",
                                    "save_to_qmem_pingordata", "save_to_dnscache"]))
-    for uid, qsel, ch in ((1, 1, 80), (1, 0, 49)) if tier == "quick" else ((1, 1, 80), (1, 0, 49), (0, 0, 80), (0, 1, 48)):
+    for uid, qsel, ch in ((1, 1, 80),) if tier == "quick" else ((1, 1, 80), (1, 0, 49), (0, 0, 80), (0, 1, 48)):
         defs = {"MODE": 4, "NL": 20, "NU": 2, "UIDCELL": uid, "QSEL": qsel, "CMDCH": "(80)", "G_DUP": None}
         jobs.append(Job("%s-emit-dup-u%d-%s" % (prefix, uid, "q" if qsel == 0 else "qsoon"), harness, defs=defs, units=STEP_UNITS,
                         hunits=SERVER_HUNITS, scale=STEP_B, subst=SHRINK_STEP + MEMCPY_SUBST, unwind=34,
@@ -541,6 +544,8 @@ def c08_jobs(tier):
             L = max(100, sp + 11)
             shape.append((L, L - 8 - sp))
     shape += [(255, 15), (255, 73)] + ([] if q else [(100, 76), (100, 3), (152, 128), (254, 3), (200, 73)])
+    if q:
+        shape = [c for c in shape if c[0] == 255 or c == shape[0]]
     content = [(100, 76), (100, 60)] if q else [(100, 76), (100, 60), (100, 35), (100, 34)]
     jobs = []
     codecs = [("base32", "base32_ops", "base32.c", 5, 5, 8), ("base128", "base128_ops", "base128.c", 5, 7, 8),
@@ -554,6 +559,10 @@ def c08_jobs(tier):
                     continue
                 seen.add((name, hdr, kind, L, T))
                 if hdr == 1 and kind == "shape" and (L, T) not in shape[:3]:
+                    continue
+                if q and name in ("base64", "base64u") and ((kind == "shape" and (L, T) != (255, 15)) or (kind == "content" and (L, T) != content[0])):
+                    continue
+                if q and hdr == 1 and (kind, (L, T)) != ("content", content[0]):
                     continue
                 sp = L - T - 8
                 npay = sp * raw // encb + 3
@@ -640,7 +649,7 @@ def c04_jobs(tier):
 
 
 def c05_jobs(tier):
-    return step_jobs(tier, ["INV"], "safe", checks=True) + emit_jobs(tier, ["INV"], "safe", checks=True) + \
+    return step_jobs(tier, ["INV"], "safe", checks=True) + (emit_jobs(tier, ["INV"], "safe", checks=True) if tier != "quick" else []) + \
         raw_jobs(tier, ["INV"], "safe", checks=True) + tun_jobs(tier, ["INV"], "safe", checks=True)
 
 
